@@ -211,14 +211,22 @@ def _opt(x, conv):
 def _containers(eg):
     """public attributes of the container objects: (left_point, right_point, max_level, minimal_step_width, slices)"""
     return [[_opt(ct.left_point, sx.rat), _opt(ct.right_point, sx.rat), _opt(ct.max_level, int), _opt(ct.minimal_step_width, sx.rat),
-             [[sx.rat(sl.left_point), sx.rat(sl.right_point)] for sl in ct.slices]] for ct in eg.slice_containers]
+             [[sx.rat(sl.left_point), sx.rat(sl.right_point)] for sl in ct.slices],
+             [int(l) for l in ct.get_normalized_grid_levels()]] for ct in eg.slice_containers]
 
 
 def containers_why(conts):
     """property predicate on the implementation alone: every container spans exactly its slices"""
-    for i, (lp, rp, ml, ms, sl) in enumerate(conts):
+    for i, (lp, rp, ml, ms, sl, nl) in enumerate(conts):
         if not sl:
             return 'container %d has no slices' % i
+        n = len(sl)
+        if n >= 2 and n & (n - 1) == 0:
+            # get_normalized_grid_levels: boundary 0, inner point j gets its POSITIONAL dyadic level (2^(K-l) | j, 2^(K-l+1) does not)
+            K = n.bit_length() - 1
+            want = [0] + [K - ((j & -j).bit_length() - 1) for j in range(1, n)] + [0]
+            if nl != want:
+                return 'container %d (%d slices): normalized levels %s are not the positional dyadic levels %s' % (i, n, nl, want)
         if lp != [sl[0][0]] or rp != [sl[-1][1]]:
             return ('container %d: left_point/right_point = %s/%s but its slices span [%s, %s]'
                     % (i, lp[0] if lp else None, rp[0] if rp else None, sl[0][0], sl[-1][1]))
@@ -231,7 +239,7 @@ def containers_why(conts):
 
 def model_containers(mc):
     return [[[sx.q(x) for x in c[0]], [sx.q(x) for x in c[1]], list(c[2]), [sx.q(x) for x in c[3]],
-             [[sx.q(l), sx.q(r)] for l, r in c[4]]] for c in mc]
+             [[sx.q(l), sx.q(r)] for l, r in c[4]], list(c[5])] for c in mc]
 
 
 def impl_sliced(case):
@@ -1018,7 +1026,7 @@ def check_sliced(chk, cases, impl=None):
         cwhy = containers_why(o['containers'])
         if cwhy:
             chk.violation('oracle:container_endpoints', 'container-attributes-inconsistent', dict(sig), one,
-                          dict(why=cwhy, containers=[[str(x) for x in ct[0] + ct[1]] + [len(ct[4])] for ct in o['containers']][:20]))
+                          dict(why=cwhy, containers=[[str(x) for x in ct[0] + ct[1]] + [len(ct[4]), ct[5]] for ct in o['containers']][:20]))
         if model_containers(mr[5]) != o['containers']:
             diff.append('container attributes')
         # verified checker: the keys of the model's weight dictionary are exactly the grid points (weights aligned with the grid)
